@@ -200,6 +200,12 @@ func init() {
 				}
 				o.UseNLP = true
 			}
+			if qw := strings.Fields(q); len(qw) > 0 && r.Chance(1, 3) {
+				// several boost keys that share a word of the query (an npm script name, a Makefile target, another spelling)
+				// with different factors: whatever the engine makes of such keys must not depend on map order
+				w := strings.ToLower(Pick(r, qw))
+				o.ContextBoosts = map[string]float64{w: 2.0, w + "-build": 1.3, "lint:" + w: 0.7, strings.ToUpper(w): 3.5, w + " " + w: 1.1, Pick(r, wordPool): 1.5}
+			}
 			reqs = append(reqs, SearchReq{Query: q, Opts: o})
 		}
 		extra := []string{}
